@@ -35,11 +35,11 @@ type ctxt struct {
 }
 
 var contexts = []ctxt{
-	{"for-arrow", func(r string) string { return "for i <- " + r + " {\n\tfmt.Print(i, \",\")\n}" }, nil},
-	{"for-in", func(r string) string { return "for i in " + r + " {\n\tfmt.Print(i, \",\")\n}" }, nil},
-	{"for-range-define", func(r string) string { return "for i := range " + r + " {\n\tfmt.Print(i, \",\")\n}" }, nil},
-	{"for-range-assign", func(r string) string { return "var j int\nfor j = range " + r + " {\n\tfmt.Print(j, \",\")\n}" }, nil},
-	{"for-arrow-if", func(r string) string { return "for i <- " + r + " if i%2 == 0 {\n\tfmt.Print(i, \",\")\n}" }, func(s []int) []int {
+	{"for-arrow", func(r string) string { return "for i <- " + r + " {\n\tfmt.Print(i, \",\")\n\tif guard++; guard > 12 {\n\t\tfmt.Print(\"...\")\n\t\tbreak\n\t}\n}" }, nil},
+	{"for-in", func(r string) string { return "for i in " + r + " {\n\tfmt.Print(i, \",\")\n\tif guard++; guard > 12 {\n\t\tfmt.Print(\"...\")\n\t\tbreak\n\t}\n}" }, nil},
+	{"for-range-define", func(r string) string { return "for i := range " + r + " {\n\tfmt.Print(i, \",\")\n\tif guard++; guard > 12 {\n\t\tfmt.Print(\"...\")\n\t\tbreak\n\t}\n}" }, nil},
+	{"for-range-assign", func(r string) string { return "var j int\nfor j = range " + r + " {\n\tfmt.Print(j, \",\")\n\tif guard++; guard > 12 {\n\t\tfmt.Print(\"...\")\n\t\tbreak\n\t}\n}" }, nil},
+	{"for-arrow-if", func(r string) string { return "for i <- " + r + " if even(i) {\n\tfmt.Print(i, \",\")\n\tif guard++; guard > 12 {\n\t\tfmt.Print(\"...\")\n\t\tbreak\n\t}\n}" }, func(s []int) []int {
 		var o []int
 		for _, v := range s {
 			if v%2 == 0 {
@@ -48,8 +48,8 @@ var contexts = []ctxt{
 		}
 		return o
 	}},
-	{"list-comprehension", func(r string) string { return "for _, i := range [i for i <- " + r + "] {\n\tfmt.Print(i, \",\")\n}" }, nil},
-	{"comprehension-if", func(r string) string { return "for _, i := range [i for i <- " + r + " if i%2 == 0] {\n\tfmt.Print(i, \",\")\n}" }, func(s []int) []int {
+	{"list-comprehension", func(r string) string { return "for _, i := range [i for i <- " + r + "] {\n\tfmt.Print(i, \",\")\n\tif guard++; guard > 12 {\n\t\tfmt.Print(\"...\")\n\t\tbreak\n\t}\n}" }, nil},
+	{"comprehension-if", func(r string) string { return "for _, i := range [i for i <- " + r + " if even(i)] {\n\tfmt.Print(i, \",\")\n\tif guard++; guard > 12 {\n\t\tfmt.Print(\"...\")\n\t\tbreak\n\t}\n}" }, func(s []int) []int {
 		var o []int
 		for _, v := range s {
 			if v%2 == 0 {
@@ -84,7 +84,7 @@ func want(seq []int) string {
 
 type Case struct {
 	Context string `json:"context"`
-	Form    string `json:"form"` // literal | variable
+	Form    string `json:"form"` // literal | variable | call
 	Start   int    `json:"start"`
 	End     int    `json:"end"`
 	Step    int    `json:"step"`
@@ -126,13 +126,18 @@ func unitFor(k Case) progs.Unit {
 			n string
 			v int
 		}{{"a", k.Start}, {"b", k.End}, {"c", k.Step}}
+		w := func(n string) string { return n }
+		if k.Form == "call" { // computed operands: the lowering keeps them in _gop_end / _gop_step
+			decl = "id := func(v int) int { return v }\n"
+			w = func(n string) string { return "id(" + n + ")" }
+		}
 		r := ""
 		if k.Start != omitted {
-			r = "a"
+			r = w("a")
 		}
-		r += ":b"
+		r += ":" + w("b")
 		if k.Step != omitted {
-			r += ":c"
+			r += ":" + w("c")
 		}
 		for _, x := range vs {
 			if x.v != omitted {
@@ -142,7 +147,7 @@ func unitFor(k Case) progs.Unit {
 		_ = lit
 		body = decl + c.render(r)
 	}
-	body += "\nfmt.Println()"
+	body = "guard, calls := 0, 0\neven := func(i int) bool {\n\tif calls++; calls > 40 {\n\t\tpanic(\"runaway loop\")\n\t}\n\treturn i%2 == 0\n}\n_ = even\n" + body + "\nfmt.Println()"
 	return progs.Unit{Key: k.Context + "/" + k.Form, XGo: body, Want: want(seq)}
 }
 
@@ -184,7 +189,7 @@ func main() {
 	steps := []int{-3, -2, -1, 1, 2, 3, omitted}
 	var cases []Case
 	for _, cx := range contexts {
-		for _, form := range []string{"literal", "variable"} {
+		for _, form := range []string{"literal", "variable", "call"} {
 			for _, st := range append([]int{omitted}, vals...) {
 				for _, en := range vals {
 					for _, sp := range steps {
@@ -237,7 +242,7 @@ func main() {
 	if notRun > 0 {
 		c.Cap(fmt.Sprintf("%d cases were queued behind a non-terminating unit and were not run", notRun))
 	}
-	c.Rule = fmt.Sprintf("complete grid start in {omitted,-3..3} x end in -3..3 x step in {-3,-2,-1,1,2,3,omitted} x %d contexts (for <-, for in, for := range, for = range, for <- if, list comprehension, comprehension with if) x {literal operands, variable operands}; quick thins start/end values; distinct_nontrivial = cases whose sequence is non-empty", len(contexts))
+	c.Rule = fmt.Sprintf("complete grid start in {omitted,-3..3} x end in -3..3 x step in {-3,-2,-1,1,2,3,omitted} x %d contexts (for <-, for in, for := range, for = range, for <- if, list comprehension, comprehension with if) x {literal operands, variable operands, computed (call) operands}; quick thins start/end values; distinct_nontrivial = cases whose sequence is non-empty", len(contexts))
 	c.Assumptions = []string{"rangeref: step>0 counts up while i<end, step<0 counts down while i>end; omitted start = 0, omitted step = 1", "programs are compiled in-process by parser+cl+gogen, built by the Go toolchain in a scratch module (go 1.23) and run with GOMAXPROCS=1"}
 	c.Finish()
 }
